@@ -663,7 +663,8 @@ func (c *client) handlePrepare(raw *frame.RawFrame, msg *message.Prepare, body *
 					} else {
 						id := md5.Sum([]byte(msg.Query + keyspace))
 						c.send(hdr, &message.PreparedResult{
-							PreparedQueryId: id[:],
+							PreparedQueryId:  id[:],
+							ResultMetadataId: resultMetadataId(hdr.Version, id[:]),
 							ResultMetadata: &message.RowsMetadata{
 								ColumnCount: int32(len(columns)),
 								Columns:     columns,
@@ -678,7 +679,8 @@ func (c *client) handlePrepare(raw *frame.RawFrame, msg *message.Prepare, body *
 				id := md5.Sum([]byte(msg.Query))
 				c.preparedSystemQuery[id] = stmt
 				c.send(hdr, &message.PreparedResult{
-					PreparedQueryId: id[:],
+					PreparedQueryId:  id[:],
+					ResultMetadataId: resultMetadataId(hdr.Version, id[:]),
 				})
 			default:
 				c.send(hdr, &message.ServerError{ErrorMessage: "Proxy attempted to intercept an unhandled query"})
@@ -1012,6 +1014,16 @@ func (d defaultPreparedCache) Load(id string) (entry *proxycore.PreparedEntry, o
 		return val.(*proxycore.PreparedEntry), true
 	}
 	return nil, false
+}
+
+// resultMetadataId returns the result metadata ID for a locally prepared statement. Protocol versions that have the
+// field (v5, DSEv2) require it to be present in a `PREPARED` result; the result metadata of the proxy's own system
+// queries never changes so the prepared ID is reused.
+func resultMetadataId(version primitive.ProtocolVersion, id []byte) []byte {
+	if version.SupportsResultMetadataId() {
+		return id
+	}
+	return nil
 }
 
 func preparedIdKey(bytes []byte) [preparedIdSize]byte {
